@@ -163,6 +163,17 @@ func TestCompileFixed(t *testing.T) {
 	}
 }
 
+// toolChainTrouble recognises failures of the go command that say nothing
+// about the generated code.
+func toolChainTrouble(detail string) bool {
+	for _, m := range []string{"updating go.mod: existing contents have changed", "no space left on device", "cannot allocate memory", "resource temporarily unavailable", "text file busy", "too many open files"} {
+		if strings.Contains(detail, m) {
+			return true
+		}
+	}
+	return false
+}
+
 func campaign(t *testing.T, prof gen.Profile) {
 	if rt.ReplayDir() != "" {
 		replayDesign(t)
@@ -208,6 +219,15 @@ func campaign(t *testing.T, prof gen.Profile) {
 			reruns++
 			stats.Class("rerun-alone:" + o.Failure)
 			outs[i] = sess.GenerateAndCompile(designs[i], true)
+		}
+		// the go command itself tripping over the shared scratch module (two
+		// builds updating go.mod at once) or the machine (disk, memory)
+		if o.Failure != "" && toolChainTrouble(o.Detail) {
+			stats.Class("rerun-alone:tool-chain-trouble")
+			outs[i] = sess.GenerateAndCompile(designs[i], true)
+			if outs[i].Failure != "" && toolChainTrouble(outs[i].Detail) {
+				t.Fatalf("INCONCLUSIVE: the Go tool chain keeps failing for an infrastructure reason: %s", firstLines(outs[i].Detail, 3))
+			}
 		}
 	}
 	sess.GenTimeout = 60 * time.Second
